@@ -202,8 +202,27 @@ func (e *Engine) callStatic(fr *Frame, st *State, fn *ssa.Function, binds []Val,
 		e.trust("library function " + full + " is a pure, deterministic function of its arguments")
 		return e.uninterpCall("lib_"+sanitize(full), T{}, args, sig)
 	}
-	e.unsupported("uncontracted external call to %s", full)
-	return nil
+	// a library function without model or contract: everything but the ghost state may have
+	// changed, nothing is known about the result.  (Library code is assumed not to call the
+	// module's contracted interfaces except through function values it is handed, and those
+	// closures are scanned for ghost effects.)
+	for _, a := range args {
+		if fv, ok := a.(*FuncV); ok && e.mayTouchGhost(fv.fn, map[*ssa.Function]bool{}) {
+			e.unsupported("library function %s is given a callback with ghost effects", full)
+		}
+	}
+	e.trust("library function " + full + " has no contract: summarised as 'may change any non-ghost state, unknown result'")
+	saved := map[string]T{}
+	for name, sort := range e.heapSort {
+		if isGhostHeap(name) {
+			saved[name] = e.heap(st, name, sort)
+		}
+	}
+	e.havocAll(st)
+	for name, t := range saved {
+		st.heaps[name] = t
+	}
+	return e.freshOfType(st, sig.Results(), "lib_"+fn.Name())
 }
 
 func isPanicStub(fn *ssa.Function) bool {
@@ -362,8 +381,24 @@ func (e *Engine) invoke(fr *Frame, st *State, m *types.Func, recv T, args []Val,
 		e.trust("Error()/String() methods are pure getters")
 		return e.uninterpCall("m_"+m.Name(), T{}, all, sig)
 	}
-	e.unsupported("uncontracted interface call %s", full)
-	return nil
+	// an interface method without an assumed contract: may change any non-ghost state; it is
+	// assumed to have none of the effects the ghost state tracks (listed per method)
+	meths, _ := e.effectMethods()
+	if meths[m.Name()] {
+		e.unsupported("interface method %s shares its name with a method that has a ghost effect and needs its own assumed contract", full)
+	}
+	e.trust("interface method " + full + " has no contract: summarised as 'may change any non-ghost state, unknown result, no ghost effect'")
+	saved := map[string]T{}
+	for name, sort := range e.heapSort {
+		if isGhostHeap(name) {
+			saved[name] = e.heap(st, name, sort)
+		}
+	}
+	e.havocAll(st)
+	for name, t := range saved {
+		st.heaps[name] = t
+	}
+	return e.freshOfType(st, sig.Results(), "m_"+m.Name())
 }
 
 // ---------------------------------------------------------------------------------------------
@@ -576,6 +611,8 @@ type modItem struct {
 
 // havocModifies applies the modifies clauses of c (evaluated in the pre-state).
 func (e *Engine) havocModifies(fr *Frame, st *State, c *Contract, args []Val) {
+	e.modPkg = c.PkgPath
+	defer func() { e.modPkg = "" }()
 	for _, cl := range c.Clauses {
 		if cl.Kind != "modifies" {
 			continue
@@ -792,12 +829,9 @@ func (e *Engine) pureLibCall(fr *Frame, st *State, fn *ssa.Function, full string
 // structFootprint: every field heap of the named struct type (all objects of that type).
 func (e *Engine) structFootprint(fp *footprint, name string) {
 	var t types.Type
-	pkgPath := ""
-	if e.topContract != nil {
+	pkgPath := e.modPkg
+	if pkgPath == "" && e.topContract != nil {
 		pkgPath = e.topContract.PkgPath
-	}
-	if e.cur != nil && e.cur.fn != nil && e.cur.fn.Pkg != nil {
-		pkgPath = e.cur.fn.Pkg.Pkg.Path()
 	}
 	if i := strings.LastIndex(name, "."); i >= 0 {
 		for path, pk := range e.P.AllPkgs {
